@@ -26,8 +26,10 @@ type Scenario struct {
 	Policy vrt.Policy
 	// Demotion offers "this goroutine is slow" alternatives.
 	Demotion bool
-	MaxSteps int
-	Horizon  time.Duration
+	// LongDemotion offers "this goroutine is delayed for up to 150 ms of virtual time" alternatives.
+	LongDemotion bool
+	MaxSteps     int
+	Horizon      time.Duration
 	// Agg, when set, makes the coverage of this scenario be added to one
 	// aggregate entry of that name in the evidence (families of tiny scenarios).
 	Agg string
@@ -136,7 +138,7 @@ func (e *Explorer) ExploreAll() bool {
 }
 
 func (e *Explorer) cfg(r *rec, trace bool) vrt.Config {
-	return vrt.Config{Chooser: r, Policy: e.Sc.Policy, OfferDemotion: e.Sc.Demotion, Trace: trace,
+	return vrt.Config{Chooser: r, Policy: e.Sc.Policy, OfferDemotion: e.Sc.Demotion, OfferLongDemotion: e.Sc.LongDemotion, Trace: trace,
 		MaxSteps: e.Sc.MaxSteps, Horizon: e.Sc.Horizon}
 }
 
@@ -249,7 +251,7 @@ func trimZeros(c []int) []int {
 // Replay re-runs one schedule with tracing.
 func Replay(sc *Scenario, choices []int) (outcome, violation string, res vrt.Result, divergence string) {
 	r := &rec{prefix: choices}
-	cfg := vrt.Config{Chooser: r, Policy: sc.Policy, OfferDemotion: sc.Demotion, Trace: true, MaxSteps: sc.MaxSteps, Horizon: sc.Horizon}
+	cfg := vrt.Config{Chooser: r, Policy: sc.Policy, OfferDemotion: sc.Demotion, OfferLongDemotion: sc.LongDemotion, Trace: true, MaxSteps: sc.MaxSteps, Horizon: sc.Horizon}
 	outcome, violation, res = sc.Run(cfg)
 	return outcome, violation, res, r.err
 }
